@@ -48,9 +48,11 @@ def run_case(case, acc, order):
                 for ids in id_lists:
                     for ch in chan_lists:
                         chl = list(range(nc)) if ch is None else ch
-                        if tag == 'store' and any(c not in stored_for.get(i, chl) for i in ids for c in chl):
+                        if tag.startswith('store') and any(c not in stored_for.get(i, chl)
+                                                           for i in ids for c in chl):
                             # the statement claims nothing about channels the store does not hold
-                            common = [c for c in range(nc) if all(c in stored_for.get(i, []) for i in ids)]
+                            common = [c for c in range(nc)
+                                      if all(c in stored_for.get(i, range(nc)) for i in ids)]
                             if len(common) < 2:
                                 continue
                             ch = chl = [common[-1], common[0]]
@@ -95,6 +97,25 @@ def run_case(case, acc, order):
                                     else 'value', {'unit': int(t), 'spikes': ids},
                                     describe(exp) if exp is not None else None, describe(got)))
                         break
+            # a store that holds a strict subset of the spikes (one per template): requests naming
+            # only stored spikes, only unstored ones, and both must all give the raw window
+            try:
+                orig = np.random.choice
+                np.random.choice = lambda a, size=None, replace=True, p=None: np.asarray(a)[:size]
+                m.save_spikes_subset_waveforms(max_n_spikes_per_template=1, sample2unit=1.0)
+                sid = np.load(str(d / 'ds' / '_phy_spikes_subset.spikes.npy'))
+                sch = np.load(str(d / 'ds' / '_phy_spikes_subset.channels.npy'))
+                stored_for.clear()
+                for r, i in enumerate(sid.tolist()):
+                    stored_for[int(i)] = [int(c) for c in sch[r] if c != -1]
+                ok_subset = m.spike_waveforms is not None and 0 < len(sid) < ns
+            except Exception:
+                ok_subset = False
+            finally:
+                np.random.choice = orig
+            if ok_subset:
+                acc.step(True, 'D:subset-export')
+                query('store-subset', 1.0, None)
             # a first, smaller export with another unit factor: the second export must replace it
             try:
                 orig = np.random.choice
